@@ -1,6 +1,6 @@
 import SqlgrepModel.Model.Expr
 import SqlgrepModel.Model.Float
-import SqlgrepModel.Model.Civil
+import SqlgrepModel.Model.CivilE
 import SqlgrepModel.Model.Text
 /-
 Expression evaluation: `ExpressionExecutionEngine::evaluate` (src/execution/expression_execution.rs),
@@ -145,9 +145,9 @@ def display : Value → String
   | .text s => "'" ++ bytesToString s ++ "'"
   | .array _ xs => "{" ++ displayList xs ++ "}"
   | .timestamp d s f =>
-    let (y, mo, dd) := Civil.civilOfDays d
-    Civil.pad 4 y ++ "-" ++ Civil.pad 2 mo ++ "-" ++ Civil.pad 2 dd ++ " " ++
-      Civil.pad 2 (s / 3600) ++ ":" ++ Civil.pad 2 (s / 60 % 60) ++ ":" ++ Civil.pad 2 (s % 60) ++ "." ++ Civil.pad 3 (f / 1000000)
+    let (y, mo, dd) := CivilE.civilOfDays d
+    CivilE.pad 4 y ++ "-" ++ CivilE.pad 2 mo ++ "-" ++ CivilE.pad 2 dd ++ " " ++
+      CivilE.pad 2 (s / 3600) ++ ":" ++ CivilE.pad 2 (s / 60 % 60) ++ ":" ++ CivilE.pad 2 (s % 60) ++ "." ++ CivilE.pad 3 (f / 1000000)
   | .interval ns => displayInterval ns
 def displayList : List Value → String
   | [] => ""
@@ -187,7 +187,7 @@ def tsAdd (d s f ns : Int) : Outcome Value :=
     let r := tsOfTotal (tsTotal d s f + ns)
     match r with
     | .timestamp d' _ _ =>
-      let (y, _, _) := Civil.civilOfDays d'
+      let (y, _, _) := CivilE.civilOfDays d'
       if -262143 ≤ y && y ≤ 262142 then .ok r else .error .undefinedOperation
     | _ => .ok r
 
@@ -266,12 +266,12 @@ def fitsI32 (x : Int) : Bool := -2147483648 ≤ x && x ≤ 2147483647
 
 /-- `create_timestamp` in UTC: chrono validity, leap-second representation allowed only for second 59 -/
 def createTimestamp (y mo d h mi s us : Int) : Option Value :=
-  if Civil.validDate y mo d && h < 24 && mi < 60 && s < 60 && us < 2000000 && (us < 1000000 || s == 59) then
-    some (.timestamp (Civil.daysFromCE y mo d) (h * 3600 + mi * 60 + s) (us * 1000))
+  if CivilE.validDate y mo d && h < 24 && mi < 60 && s < 60 && us < 2000000 && (us < 1000000 || s == 59) then
+    some (.timestamp (CivilE.daysFromCE y mo d) (h * 3600 + mi * 60 + s) (us * 1000))
   else none
 
 def tsField (f : Func) (d s : Int) : Int :=
-  let (y, mo, dd) := Civil.civilOfDays d
+  let (y, mo, dd) := CivilE.civilOfDays d
   match f with
   | .year => y | .month => mo | .day => dd | .hour => s / 3600 | .minute => s / 60 % 60 | _ => s % 60
 
@@ -284,10 +284,10 @@ def truncSpan (part : Bytes) : Option Int :=
   else none
 
 def dateTrunc (part : Bytes) (d s f : Int) : Outcome Value :=
-  let (y, mo, dd) := Civil.civilOfDays d
-  if part == strBytes "year" then .ok (.timestamp (Civil.daysFromCE y 1 1) 0 0)
-  else if part == strBytes "month" then .ok (.timestamp (Civil.daysFromCE y mo 1) 0 0)
-  else if part == strBytes "day" then .ok (.timestamp (Civil.daysFromCE y mo dd) 0 0)
+  let (y, mo, dd) := CivilE.civilOfDays d
+  if part == strBytes "year" then .ok (.timestamp (CivilE.daysFromCE y 1 1) 0 0)
+  else if part == strBytes "month" then .ok (.timestamp (CivilE.daysFromCE y mo 1) 0 0)
+  else if part == strBytes "day" then .ok (.timestamp (CivilE.daysFromCE y mo dd) 0 0)
   else match truncSpan part with
     | none => .error .invalidTruncatePart
     | some span =>
